@@ -4,6 +4,7 @@ import (
 	"bytes"
 	"encoding/json"
 	"fmt"
+	"math"
 	"strconv"
 	"strings"
 	"sync"
@@ -350,17 +351,18 @@ type evObs struct {
 	ValOk  bool       `json:"val_ok"`
 	TsOk   bool       `json:"ts_ok"`
 	Ts32   uint32     `json:"ts32"`
+	Bits   string     `json:"bits"` // float64 bits of the value token (decimal), oracle
 	Mutated bool      `json:"mutated"` // a delivered slice changed after the hand-off
 }
 
-func oracleFloats(line []byte) (bool, bool, uint32) {
+func oracleFloats(line []byte) (bool, bool, uint32, string) {
 	f := bytes.Fields(line)
 	if len(f) != 3 {
-		return false, false, 0
+		return false, false, 0, "0"
 	}
-	_, e1 := strconv.ParseFloat(string(f[1]), 64)
+	v, e1 := strconv.ParseFloat(string(f[1]), 64)
 	ts, e2 := strconv.ParseFloat(string(f[2]), 64)
-	return e1 == nil, e2 == nil, uint32(ts)
+	return e1 == nil, e2 == nil, uint32(ts), strconv.FormatUint(math.Float64bits(v), 10)
 }
 
 func runTable(raw json.RawMessage) (interface{}, error) {
@@ -392,7 +394,7 @@ func runTable(raw json.RawMessage) (interface{}, error) {
 		line := unhx(ev.B)
 		switch ev.T {
 		case "line":
-			o.ValOk, o.TsOk, o.Ts32 = oracleFloats(line)
+			o.ValOk, o.TsOk, o.Ts32, o.Bits = oracleFloats(line)
 			if c.Reuse {
 				scratch = append(scratch[:0], line...)
 				env.tab.Dispatch(scratch)
